@@ -327,6 +327,7 @@ func check(t rep.Fataler, c Case) {
 		rep.Excluded(sig)
 		return
 	}
+	rep.Begin(ID, "proc", c)
 	b := bound(&c)
 	r := run(c, b)
 	if r.Err != "" {
